@@ -14,7 +14,52 @@ import (
 
 // spawnPipe starts producers, the build task and the consumers of one pipeline inside a running
 // simulation (the non-step-feed part of runPipe, reusable for several pipelines in one bubble).
-func spawnPipe[I, O any](capacity int, inputs [][]I, build func(in []<-chan I) []<-chan O, res *PipeResult[O]) {
+// lockstep: the outputs of all concurrent calls are read by ONE consumer, one value from each
+// open stream in turn (a caller that zips the results of two calls on one instance, as the
+// library itself does with a shared MovingSum). A stream that can only proceed once another one
+// has been read to its end stalls here, and only here.
+type lockstep[O any] struct {
+	regs chan lsReg[O]
+	n    int
+}
+
+type lsReg[O any] struct {
+	res  *PipeResult[O]
+	outs []<-chan O
+}
+
+func (ls *lockstep[O]) consume() {
+	simrt.GoKind("cons", func() {
+		type stream struct {
+			res *PipeResult[O]
+			j   int
+			oc  <-chan O
+		}
+		var open []stream
+		for i := 0; i < ls.n; i++ {
+			r := <-ls.regs
+			for j, oc := range r.outs {
+				open = append(open, stream{r.res, j, oc})
+			}
+		}
+		for len(open) > 0 {
+			next := open[:0]
+			for _, st := range open {
+				consYield()
+				v, ok := <-st.oc
+				if !ok {
+					st.res.Closed[st.j] = true
+					continue
+				}
+				st.res.Outs[st.j] = append(st.res.Outs[st.j], v)
+				next = append(next, st)
+			}
+			open = next
+		}
+	})
+}
+
+func spawnPipe[I, O any](capacity int, inputs [][]I, build func(in []<-chan I) []<-chan O, res *PipeResult[O], ls ...*lockstep[O]) {
 	res.Fed = make([]int, len(inputs))
 	res.ProdDone = make([]bool, len(inputs))
 	ins := make([]chan I, len(inputs))
@@ -40,6 +85,10 @@ func spawnPipe[I, O any](capacity int, inputs [][]I, build func(in []<-chan I) [
 		res.Outs = make([][]O, len(outs))
 		res.Closed = make([]bool, len(outs))
 		res.Built = true
+		if len(ls) > 0 && ls[0] != nil {
+			ls[0].regs <- lsReg[O]{res, outs}
+			return
+		}
 		for j, oc := range outs {
 			simrt.GoKind("cons", func() {
 				for {
@@ -121,6 +170,9 @@ func (c09) Gen(rng *rand.Rand, tier string, k int) *Case {
 	c.Mode = []string{"sequential", "concurrent", "concurrent"}[rng.Intn(3)]
 	if rng.Intn(4) == 0 {
 		c.Variant = 1 + rng.Intn(2) // non-period parameters (smoothing, percentage, multiplier...) off their defaults
+	}
+	if c.Mode == "concurrent" && rng.Intn(4) == 0 {
+		c.Lock = true
 	}
 	if c.Mode == "sequential" && rng.Intn(3) == 0 {
 		// the caller reconfigures the instance between two calls (the exported period fields are the
@@ -229,12 +281,19 @@ func (c09) Run(c *Case, st *Stats) []Violation {
 			return f
 		}
 		simOut = simulate(opts, func(s *simrt.Sim) {
+			var ls *lockstep[F]
+			if c.Lock && !sequential {
+				// (the channel is made inside the simulation: blocking on one made outside would not count as blocked)
+				ls = &lockstep[F]{regs: make(chan lsReg[F], len(c.Calls)), n: len(c.Calls)}
+				st.Faults["outputs-of-all-calls-read-in-lock-step-by-one-consumer"]++
+				ls.consume()
+			}
 			for k := range c.Calls {
 				if c.Calls[k].Rescale > 1 && sequential && !e.NoScale {
 					rescaleExported(reflect.ValueOf(shared.Inst), c.Calls[k].Rescale, 0)
 					st.Faults["instance-reconfigured-between-calls"]++
 				}
-				spawnPipe(c.Cap, inputs[k], shared.Build(), res[k])
+				spawnPipe(c.Cap, inputs[k], shared.Build(), res[k], ls)
 				if sequential && s.Run() != nil {
 					return
 				}
@@ -307,6 +366,20 @@ func (c09) Run(c *Case, st *Stats) []Violation {
 			})
 		}
 		simOut = simulate(opts, func(s *simrt.Sim) {
+			var ls *lockstep[strategy.Action]
+			if c.Lock && !sequential {
+				n := 0
+				for _, cs := range c.Calls {
+					if !cs.Report {
+						n++
+					}
+				}
+				if n >= 2 {
+					ls = &lockstep[strategy.Action]{regs: make(chan lsReg[strategy.Action], n), n: n}
+					st.Faults["outputs-of-all-calls-read-in-lock-step-by-one-consumer"]++
+					ls.consume()
+				}
+			}
 			for k, cs := range c.Calls {
 				if cs.Rescale > 1 && sequential {
 					rescaleExported(reflect.ValueOf(shared), cs.Rescale, 0)
@@ -317,7 +390,7 @@ func (c09) Run(c *Case, st *Stats) []Violation {
 				} else {
 					spawnPipe(c.Cap, [][]*asset.Snapshot{series[k]}, func(in []<-chan *asset.Snapshot) []<-chan strategy.Action {
 						return []<-chan strategy.Action{shared.Compute(in[0])}
-					}, res[k])
+					}, res[k], ls)
 				}
 				if sequential && s.Run() != nil {
 					return
